@@ -111,6 +111,12 @@ CLAIMED["C16"] = dict(
     text="Seeded search over malformed inputs at the entry points the simulator can reach (rfc6492, rfc8181, serde decoding of API request types followed by the manager call). The HTTP routing layer itself (path segments, headers) is outside the simulator; that part of the quantifier is not covered (see DESIGN.md).",
     design_ref="DESIGN.md §5 C16",
 )
+CLAIMED["C15"] = dict(
+    category="fault_enumeration",
+    technique="deterministic simulation with the harness as courier between trust-anchor proxy and signer: replayed, stale, re-ordered, cross-signed and modified requests and responses around every genuine exchange, several children with concurrent requests",
+    text="The message-level fault kinds (replay, stale nonce, foreign signing key, clear text altered after signing, corrupted signed message, second request while one is open) are all delivered in every round of every run, around genuine exchanges carrying 1-2 child requests; state digests before/after every refused message. Signer re-initialisation is not covered (no such operation exists for the embedded signer).",
+    design_ref="DESIGN.md §5 C15",
+)
 PENDING = {}
 
 def main():
